@@ -220,7 +220,7 @@ def run_property(prop: str, repo: Path, tier: str, seed: int, only_rule: str | N
             f"wall={time.time() - t0:.2f}s"
         )
 
-    env.cache["last_result"] = {"status": status, "violations": violations, "known": known_hits, "errors": errors}
+    env.cache["last_result"] = {"status": status, "violations": violations, "known": known_hits, "errors": errors, "instances": all_instances}
     global LAST
     LAST = env.cache["last_result"]
     if thorough_selftest and status != 2:
